@@ -222,7 +222,13 @@ def run(cx: Cx):
     if succ:
         S = f_or(*[p.cond for p in succ])
         S = _drop_nonposition_atoms(S)
-        r = compare_inside(S, aself, {ax: Sym(pnames[ax]) for ax, _, _ in AXES})
+        from sa.terms import TooManyRegions as _TMR
+        try:
+            r = compare_inside(S, aself, {ax: Sym(pnames[ax]) for ax, _, _ in AXES})
+        except _TMR:
+            # too many distinct comparison terms for one truth table: judge path by path instead (the accepting paths must
+            # each imply "inside", which is the half of the equivalence that keeps agents in the world)
+            r = paths_imply_inside(succ, aself, {ax: Sym(pnames[ax]) for ax, _, _ in AXES})
         if r is None:
             cx.ok('R-GUARD', 'add_agent accepts exactly the in-world placements (both offsets)', where=cx.where(add_agent), function=add_agent.qualname)
         else:
@@ -259,7 +265,7 @@ def run(cx: Cx):
     # ------------------------------------------------------------ R-ATOMIC
     check_atomic(cx, move_to.qualname, ['IndexError', 'ComponentNotFoundError'])
     check_atomic(cx, move.qualname, ['ComponentNotFoundError'])
-    check_atomic(cx, add_agent.qualname, ['Exception'])
+    check_atomic(cx, add_agent.qualname, ['Exception', 'DuplicateAgentError'])
 
     # ------------------------------------------------------------ R-FWD: the wrapping mode asked for is the wrapping mode used
     from .common import check_forwarding_chain
@@ -326,10 +332,17 @@ def compare_inside(S, self_s, vals):
     (case label, found, expected, counterexample)."""
     from sa.terms import subst_formula, term_symbols, FAnd, TooManyRegions
     off = Attr(self_s, '_index_offset')
-    for offv in (0, 1):
+    from sa.terms import subst_atoms, FConst, atoms_of, ATruthy
+    wrap_atoms = [a for a in atoms_of(S) if isinstance(a, ATruthy) and isinstance(a.t, Attr) and a.t.name == 'wrap_env']
+    cases = [(offv, w) for offv in (0, 1) for w in ((True, False) if wrap_atoms else (None,))]
+    for offv, wrapv in cases:
         mp = {off: Num(Fraction(offv))}
         Sc = subst_formula(S, mp)
         label = f"_index_offset={offv} ({'continuous' if offv == 0 else 'grid'} world)"
+        if wrapv is not None:
+            # the acceptance test may be written per topology: judge each case on its own (fewer comparison terms at a time)
+            Sc = subst_atoms(Sc, lambda a, wv=wrapv: FConst(wv) if a in wrap_atoms else None)
+            label += f", wrap_env={wrapv}"
         exp_axis = {}
         for ax, ext, _ in AXES:
             E = Attr(self_s, ext)
@@ -357,6 +370,26 @@ def compare_inside(S, self_s, vals):
         cex = compare(Sc, Eall, assume=dom, domain='real')
         if cex is not None:
             return (label, Sc, Eall, cex)
+    return None
+
+
+def paths_imply_inside(succ, self_s, vals):
+    """Every accepting path establishes, for each axis, 0 <= v <= extent - offset or a non-positive extent (both offsets)."""
+    from sa.terms import subst_formula
+    off = Attr(self_s, '_index_offset')
+    dom = f_and(*[extent_domain(Attr(self_s, ext)) for _, ext, _ in AXES])
+    for p in succ:
+        F0 = _drop_nonposition_atoms(p.cond)
+        for offv in (0, 1):
+            F = subst_formula(F0, {off: Num(Fraction(offv))})
+            for ax, ext, _ in AXES:
+                E = Attr(self_s, ext)
+                v = vals[ax]
+                goal = f_or(f_and(mk_cmp(ZERO, '<=', v), mk_cmp(v, '<=', sub(E, Num(Fraction(offv))))), f_not(positive(E)))
+                cex = implies(F, goal, assume=dom, domain='real')
+                if cex is not None:
+                    return (f"_index_offset={offv}, axis {ax}, path at line {p.last.line if p.last else '?'}", F, goal,
+                            dict(cex, _left=True) if isinstance(cex, dict) else {'_left': True})
     return None
 
 
